@@ -380,7 +380,8 @@ def main():
         seen_sig.add(sig)
         try:
             if not d.case.get("noshrink"):
-                d = shrink(P, harness, d, env=env)
+                # an operation that hangs costs a whole watchdog period per attempt: shrink only a little
+                d = shrink(P, harness, d, env=env, budget=6 if "HANG" in (d.detail or "") else 250)
         except Exception as e:
             log("shrink failed: %r" % e)
         if d.kind in ("spec", "crash"):
